@@ -198,6 +198,12 @@ void run_sweep(Stats& st) {
 			arbitrary_case(b, true, false, st, "saved_field");
 		}
 	}
+	// unit size other than 120 with NO units recorded is legal (the size check only applies when units exist): still the same map
+	for (uint32_t us : {0u, 1u, 64u, 119u, 121u, 240u, 0xFFFFFFFFu}) for (unsigned w = 1; w < 4; ++w) {
+		if (!sw("saved_unit_size_no_units", us, w)) continue;
+		refmap::SaveExtra x; x.unitCount = 0; x.sizeOfUnit = us; x.fill = uint8_t(0x10 + w); x.objectCount2 = w;
+		saved_equivalence(small_seed(w), x, w == 2, st, 1);
+	}
 	if (sw("saved_bad_unit")) { refmap::SaveExtra x; x.unitCount = 1; x.sizeOfUnit = 119; saved_equivalence(small_seed(1), x, false, st, 0); }
 	st.exhaustive = true;
 }
